@@ -17,14 +17,19 @@
 (*         "eu":e}   a maximal run of consecutive grid inputs lo..hi, each  *)
 (*       converted by a FRESH quantizer with scale m, all reporting note n  *)
 (*       (fmin/fmax/eu: extremes over the run)                              *)
+(*  {"op":"mark"} ... {"op":"rep","n":k}  run-length compression: k further  *)
+(*       repetitions of exactly the calls in between, with identical        *)
+(*       observations (compared by the recorder); accepted iff the marked   *)
+(*       repetition returned the specification to its state at the mark     *)
 (***************************************************************************)
 EXTENDS Quantizer, TraceLib, Tables
 
 VARIABLES l, dead,
           prevU,    \* previous input (units) since the scale was last edited, or -2000000000
-          edited    \* ghost: the scale was edited since the previous conversion
+          edited,   \* ghost: the scale was edited since the previous conversion
+          snap      \* the state at the last "mark" event
 
-tvars == <<qVars, l, dead, prevU, edited>>
+tvars == <<qVars, l, dead, prevU, edited, snap>>
 
 e == Rec[l]
 
@@ -75,24 +80,24 @@ CvTags ==
   \cup C19Tags(n, e.sk, e.fq, e.fq, IF inrange THEN e.eu ELSE Min2(e.eu, e.ec), inrange, ~hist,
              hist /\ valid /\ n = last /\ (strict \/ ~(n >= 0 /\ n <= Top /\ Accept(allowed, uc, n))))
 
-TMeta == e.op = "meta" /\ UNCHANGED <<qVars, dead, prevU, edited>> /\ l' = l + 1
+TMeta == e.op = "meta" /\ UNCHANGED <<qVars, dead, prevU, edited, snap>> /\ l' = l + 1
 
 TNew ==
   /\ e.op = "new"
   /\ allowed' = 0..11 /\ hist' = FALSE /\ last' = 0
-  /\ prevU' = NoPrev /\ edited' = FALSE
+  /\ prevU' = NoPrev /\ edited' = FALSE /\ snap' = <<>>
   /\ l' = l + 1 /\ dead' = {}
 
 TAllow ==
   /\ e.op = "al"
   /\ Allow(e.ns)
-  /\ prevU' = NoPrev /\ edited' = TRUE
+  /\ prevU' = NoPrev /\ edited' = TRUE /\ snap' = snap
   /\ Advance(ScaleTags(e.ns))
 
 TForbid ==
   /\ e.op = "fb"
   /\ IF Len(e.ns) = 0 THEN UNCHANGED qVars ELSE Forbid(e.ns)
-  /\ prevU' = NoPrev /\ edited' = TRUE
+  /\ prevU' = NoPrev /\ edited' = TRUE /\ snap' = snap
   /\ Advance(ScaleTags(e.ns))
 
 \* the specification's own memory follows the reported note (so one divergence is reported once)
@@ -101,7 +106,7 @@ TConvert ==
   /\ allowed' = allowed /\ hist' = TRUE
   /\ last' = IF e.n >= 0 /\ e.n <= Top THEN e.n ELSE last
   /\ prevU' = IF e.nan THEN NoPrev ELSE e.u
-  /\ edited' = FALSE
+  /\ edited' = FALSE /\ snap' = snap
   /\ Advance(CvTags)
 
 \* a run of fresh conversions under scale m
@@ -115,15 +120,21 @@ RunTags ==
 TRun ==
   /\ e.op = "run"
   /\ allowed' = MaskSet(e.m) /\ hist' = FALSE /\ last' = 0
-  /\ prevU' = NoPrev /\ edited' = FALSE
+  /\ prevU' = NoPrev /\ edited' = FALSE /\ snap' = snap
   /\ Advance(RunTags)
 
-TPanic == /\ e.op = "panic" /\ UNCHANGED <<qVars, prevU, edited>>
+TPanic == /\ e.op = "panic" /\ UNCHANGED <<qVars, prevU, edited, snap>>
           /\ Advance({<<"C17", "panic">>, <<"C07", "panic">>}
                       \cup (IF Has(e, "where") /\ e.where = "convert"
                               THEN {<<"C08", "panic">>, <<"C09", "panic">>, <<"C19", "panic">>} ELSE {}))
 
-TNext == l <= NRec /\ (TMeta \/ TNew \/ TAllow \/ TForbid \/ TConvert \/ TRun \/ TPanic)
-TInit == QInit /\ l = 1 /\ dead = {} /\ prevU = NoPrev /\ edited = FALSE /\ FlagInit
+TMark == e.op = "mark" /\ snap' = <<qVars, prevU, edited>> /\ UNCHANGED <<qVars, dead, prevU, edited>> /\ l' = l + 1
+TRep  == /\ e.op = "rep" /\ UNCHANGED <<qVars, prevU, edited, snap>>
+         /\ Advance(IF snap = <<qVars, prevU, edited>> THEN {}
+                    ELSE {<<"C07", "repetition-not-a-cycle">>, <<"C08", "repetition-not-a-cycle">>,
+                          <<"C09", "repetition-not-a-cycle">>, <<"C19", "repetition-not-a-cycle">>})
+
+TNext == l <= NRec /\ (TMark \/ TRep \/ TMeta \/ TNew \/ TAllow \/ TForbid \/ TConvert \/ TRun \/ TPanic)
+TInit == QInit /\ l = 1 /\ dead = {} /\ prevU = NoPrev /\ edited = FALSE /\ snap = <<>> /\ FlagInit
 TSpec == TInit /\ [][TNext]_tvars
 =============================================================================
